@@ -550,7 +550,6 @@ pub fn gen_case(rng: &mut Rng, n_rules: usize, max_threads: usize, min_rules: us
                     Lit::I(i) => Lit::I(if rng.bool() { i + 1 + rng.range(0, 9) } else { i - 1 - rng.range(0, 9) }),
                     Lit::S(w) => Lit::S(WORDS.iter().find(|x| **x != w.as_str()).unwrap_or(&"zz").to_string()),
                     Lit::B(b) => Lit::B(!b),
-                    o => o.clone(),
                 };
                 flat_decoys.insert(k.clone(), other);
             }
